@@ -50,7 +50,8 @@ Section Main.
 
   Variable sampling : bool.
   Variable os : nat.
-  Hypothesis Hos : 1 <= os.
+  (* the oversampling factor only matters for sampling splitting (there 0 makes the sample count negative) *)
+  Hypothesis Hos : sampling = true -> 1 <= os.
 
   (** the situation after the early return and the clamp: n >= 2 elements, 1 <= p <= n threads *)
   Variable input : list A.
@@ -146,8 +147,8 @@ Section Main.
     - rewrite temps_total. apply st_nth_le. lia.
   Qed.
 
-  Lemma ns_pos : 2 <= p -> 1 <= ns.
-  Proof. intros Hp2. unfold ns, num_samples. nia. Qed.
+  Lemma ns_pos : sampling = true -> 2 <= p -> 1 <= ns.
+  Proof. intros Es Hp2. specialize (Hos Es). unfold ns, num_samples. nia. Qed.
 
   Lemma ss_facts : sampling = true -> length ss = p * ns /\ SS ss.
   Proof.
@@ -202,7 +203,7 @@ Section Main.
       + rewrite !(nth_map_seq p) by exact Hs. apply (lower_bound_mono _ H).
         destruct (ss_facts Es) as [Lss Sss].
         apply (SS_nth _ H); [exact Sss|nia|]. rewrite Lss.
-        pose proof (ns_pos ltac:(lia)). nia.
+        pose proof (ns_pos Es ltac:(lia)). nia.
       + eapply split_mono; [apply partition_split; lia|apply partition_split; lia|].
         apply starts_mono; assumption.
   Qed.
@@ -247,12 +248,12 @@ Section Main.
         destruct (Nat.eqb_spec t 0) as [->|Hne].
         * rewrite Nat.mul_0_r. reflexivity.
         * replace (t <? p) with true by (symmetry; apply Nat.ltb_lt; lia).
-          pose proof (ns_pos ltac:(lia)).
+          pose proof (ns_pos Es ltac:(lia)).
           replace (0 <? ns * t) with true by (symmetry; apply Nat.ltb_lt; nia). reflexivity.
       + unfold sampling_end, cuts. rewrite Es. fold ns. replace (S t =? 0) with false by reflexivity.
         rewrite Nat.add_1_r.
         destruct (Nat.ltb_spec (S t) p) as [Hlt|Hge].
-        * pose proof (ns_pos ltac:(lia)).
+        * pose proof (ns_pos Es ltac:(lia)).
           replace (ns * S t <? ns * p) with true by (symmetry; apply Nat.ltb_lt; nia). reflexivity.
         * replace (ns * S t <? ns * p) with false by (symmetry; apply Nat.ltb_ge; nia). reflexivity.
     - f_equal.
